@@ -331,17 +331,19 @@ def refMatch (like : Bytes → Bytes → Bool) (alg thumb : Option String) (f : 
 
 /-! ### Invariant of rows written through the key API -/
 
-/-- system tags are encrypted `alg` / `thumb` tags, and there is at most one `alg` -/
+/-- the system tags `alg` / `thumb` of a row are encrypted tags, and all its `alg` tags agree
+    (`insert_key` writes exactly one; `update_key` keeps what it finds) -/
 structure SysTagsWF (tags : List Tag) : Prop where
-  sys : ∀ t ∈ tags, stripUser t.name = none → t.plain = false ∧ (t.name = "alg" ∨ t.name = "thumb")
-  oneAlg : (tags.filter fun t => t.name == "alg").length ≤ 1
+  algEnc : ∀ t ∈ tags, t.name = "alg" → t.plain = false
+  thumbEnc : ∀ t ∈ tags, t.name = "thumb" → t.plain = false
+  oneAlg : ∀ t1 ∈ tags, ∀ t2 ∈ tags, t1.name = "alg" → t2.name = "alg" → t1.value = t2.value
 
 /-- every key row of the session's profile was written by `insert_key` / `update_key` -/
 def KeysWF (C : Cbor) (s : Sess) (db : Db) : Prop :=
   ∀ it ∈ db.items, it.pid = s.pid → it.kind = kmsKind → it.cat = cryptoKey →
     SysTagsWF it.tags ∧ ∃ p, C.dec it.value = some p
 
-/-- no filter name carries the plaintext marker `~` -/
+/-- the filter name does not carry the plaintext marker `~` -/
 def encName (k : String) : Bool :=
   match k.toList with
   | '~' :: _ => false
